@@ -54,6 +54,14 @@ def cases(tier, seed):
             for sc in (G.scalings_of(spec, (0, 1 if (si + ci) % 2 else 4)) if tier == "thorough" else G.scalings_of(spec, (0, 1))):
                 c = dict(cfg); c["iteration_limit"] = H
                 out.append({"spec": spec, "cfg": c, "sc": sc})
+    # integer-typed bound arrays under every scaling
+    for obj in ("qdiag", "cubic"):
+        for rows in ([], [("affine", "ranged")], [("sphere", "upper")]):
+            for x0i in (1, 2):
+                sp = S.mk(2, obj, rows, ["intbox", "intbox"], x0_idx=x0i)
+                for sc in G.scalings_of(sp, (0, 1, 2, 3, 4, 5)):
+                    for ctl in ("DistanceRatio", "Exact"):
+                        out.append({"spec": sp, "cfg": {"iteration_limit": H, "control": ctl}, "sc": sc})
     # solve() without a start: the default start is the origin projected onto the box (boxes below exclude 0 for some variables)
     for vk in (["boxed", "lower"], ["upper", "boxed"]):
         for shift in (1.0, -2.0, 4.0, -4.0):
